@@ -96,6 +96,8 @@ def doY (w : List String) : String :=
       | .ok (r, nsub) =>
         if nms.any (fun s => (nmOf nsub s).isNone) then "bad-op" else
         let nosub := cflags.testBit 2
+        -- the domain of `cmatch_refines_llmatch` / `parse_render_*`: every parsed tree has the parser's shape
+        if !wfL 2 r then "ok nsub=" ++ toString nsub ++ " noshape" else
         match CM.compileOps r with
         | none => "ok nsub=" ++ toString nsub ++ " nocompile"
         | some (alts, _) =>
